@@ -2,8 +2,8 @@
  * inline-asm helpers replaced by the Intel SDM contract of the crc32 instruction), libmy/crc32c.c + mtbl/crc32c_wrap.c. */
 #include <stdint.h>
 #include <stddef.h>
-#include "/repo/libmy/crc32c-slicing.c"
-#include "/repo/libmy/crc32c-sse42.c"
+#include "libmy/crc32c-slicing.c"
+#include "libmy/crc32c-sse42.c"
 #include "spec/ghost.h"
 
 #define POLY 0x82F63B78u        /* Castagnoli, reflected */
